@@ -4,7 +4,7 @@ from __future__ import annotations
 import ast
 
 from ..absint import fold_equals
-from ..lib import Facts, len_eq, name_call
+from ..lib import Facts, len_eq, name_call, own_nodes
 from ..model import AnalysisError
 from ..report import Run
 from ..terms import TermCtx, show, strip_sites
@@ -66,7 +66,11 @@ def check(run: Run) -> None:
                 continue
             seq, seed, fold = args
             # R1
-            names = fx.str_equals(("attr", ("attr", node_p, "func"), "id"))
+            id_t = ("attr", ("attr", node_p, "func"), "id")
+            names = fx.str_equals(id_t)
+            table = _fold_table(m, fold, id_t, fx)
+            if table is not None:
+                names = set(table)
             run.check(bool(names) and names <= set(SPEC), "C19.R1", fi, s, "lowering is keyed on a shortcut name", f"lowering branch is not restricted to the shortcut names (known names here: {sorted(names)})")
             run.check(fx.isinstance_of(("attr", node_p, "func"), {"ast.Name"}), "C19.R1", fi, s, "callee is an ast.Name", "lowering branch is not guarded by 'callee is an ast.Name': method calls / computed callees may be rewritten")
             # R2
@@ -81,10 +85,12 @@ def check(run: Run) -> None:
             sd = dict(seed[2]).get("value") if seed[0] == "new" and seed[1] == "Constant" else None
             run.check(sd == ("const", 0) and type(sd[1]) is int, "C19.R3", fi, s, "seed is Constant(0)", f"seed is {show(seed)[:80]}, expected the constant 0")
             src = _fold_source(fold)
-            if src is None:
+            if src is None and table is None:
                 run.fail("C19.R3", fi, s, f"fold is not a parsed lambda literal: {show(fold)[:120]}")
                 continue
             for nm in sorted(names & set(SPEC)):
+                if table is not None:
+                    src = table[nm]
                 ok, why = fold_equals(src, SPEC[nm])
                 run.check(ok, "C19.R3", fi, s, f"fold for {nm} {src!r} matches its specification on the grid", f"fold for {nm} is {src!r}: {why}")
                 covered.add(nm)
@@ -113,6 +119,51 @@ def _falsy_fact(fa, atom, pol, subject) -> bool:
         return False
 
 
+def _fold_table(m, fold, id_t, fx):
+    """fold = ast.parse(TABLE.get(<callee name>)).body[0].value under `.. is not None`  (or TABLE[<callee name>] under
+    `<callee name> in TABLE`) with TABLE a module-level {name: "lambda .."} literal  ->  that dict."""
+    t = fold
+    if not (t[0] == "attr" and t[2] == "value" and t[1][0] == "index" and t[1][2] == 0 and t[1][1][0] == "attr" and t[1][1][2] == "body"):
+        return None
+    p = t[1][1][1]
+    if not (p[0] == "app" and p[1] == ("global", "ast.parse") and len(p[2]) == 1):
+        return None
+    key = p[2][0]
+    table = None
+    if key[0] == "app" and key[1][0] == "global" and key[1][1].endswith(".get") and key[2] == (id_t,):
+        table = key[1][1][: -len(".get")]
+        if not fx.compare_const(key, [ast.IsNot], None):
+            return None
+    elif key[0] == "subscript" and key[1][0] == "global" and key[2] == id_t:
+        table = key[1][1]
+        guarded = any(pol and isinstance(a, ast.Compare) and len(a.ops) == 1 and isinstance(a.ops[0], ast.In) and fx._term(a.left) == id_t and fx._term(a.comparators[0]) == key[1] for a, pol in fx.atoms)
+        if not guarded:
+            return None
+    if table is None:
+        return None
+    modname, _, var = table.rpartition(".")
+    try:
+        mod = m.module(modname)
+    except Exception:
+        return None
+    lit = mod.assigns.get(var)
+    if not isinstance(lit, ast.Dict) or not lit.keys:
+        return None
+    out = {}
+    for k, v in zip(lit.keys, lit.values):
+        if not (isinstance(k, ast.Constant) and isinstance(k.value, str) and isinstance(v, ast.Constant) and isinstance(v.value, str)):
+            return None
+        out[k.value] = v.value
+    # the table must not be written anywhere in the package
+    for f in m.funcs.values():
+        for n in own_nodes(f):
+            if isinstance(n, ast.Name) and n.id == var and isinstance(n.ctx, (ast.Store, ast.Del)):
+                return None
+            if isinstance(n, ast.Subscript) and isinstance(n.ctx, (ast.Store, ast.Del)) and isinstance(n.value, ast.Name) and n.value.id == var:
+                return None
+    return out
+
+
 def _fold_source(fold):
     # ast.parse(<const str>).body[0].value
     t = fold
@@ -121,3 +172,26 @@ def _fold_source(fold):
         if p[0] == "app" and p[1] == ("global", "ast.parse") and p[2] and p[2][0][0] == "const" and isinstance(p[2][0][1], str):
             return p[2][0][1]
     return None
+
+
+def shortcut_names(m) -> set:
+    """the callee names aggregate_node_transformer.visit_Call lowers (read from its guards or its table) - used by C17.R5"""
+    cls = m.find_class("aggregate_node_transformer", in_module="func_adl.ast.aggregate_shortcuts")
+    fi = cls.methods.get("visit_Call")
+    if fi is None:
+        raise AnalysisError("anchor vanished: aggregate_node_transformer.visit_Call")
+    ctx = TermCtx(m, max_depth=4)
+    fa = ctx.analysis(fi)
+    node_p = ("param", fi.pos_params[1])
+    id_t = ("attr", ("attr", node_p, "func"), "id")
+    out = set()
+    for s_, n_ in fa.returns():
+        t = strip_sites(fa.term_of(s_.value, n_)) if s_.value is not None else ("const", None)
+        for alt in (t[1] if t[0] == "phi" else [t]):
+            nc = name_call(alt)
+            if nc is None or nc[0] != "Aggregate" or len(nc[1]) != 3:
+                continue
+            fx = Facts(fa, s_)
+            table = _fold_table(m, nc[1][2], id_t, fx)
+            out |= set(table) if table is not None else fx.str_equals(id_t)
+    return out
